@@ -2,7 +2,10 @@
 //!   key.from_wif text                    -> key;compressed
 //!   key.to_wif key compressed            -> wif;reparsed key;reparsed flag
 //!   key.from_hex text / key.from_bytes b -> key;compressed
-//!   key.to_pub key compressed            -> pubkey bytes;is_compressed
+//!   key.to_pub key compressed            -> to_public_key (bytes;flag;to_hex);get_point;from_private_key (bytes;flag;to_hex)
+//!   key.random                           -> from_random: distinct;valid;compressed;wif round trip (behavioural)
+//!   pub.from_hex text                    -> bytes;is_compressed;to_hex
+//!   addr.chain_named hash name           -> set_chain_params(ChainParams::<name>()): prefix;hash;string;hash hex;same as _impl
 //!   key.address key compressed prefix    -> pubkey;hash160;address string;locking script
 //!   pub.parse b                          -> bytes;is_compressed
 //!   pub.compress b / pub.decompress b    -> bytes;is_compressed
@@ -52,11 +55,11 @@ fn show_key(k: &PrivateKey) -> String {
         Ok(p) => flag(p.is_compressed()).to_string(),
         Err(_) => "E".to_string(),
     };
-    format!("{};{}", hex::encode(k.to_bytes()), c)
+    format!("{};{};{}", hex::encode(k.to_bytes()), c, k.to_hex())
 }
 fn show_pub(p: &PublicKey) -> String {
     match p.to_bytes() {
-        Ok(b) => format!("{};{}", hex::encode(b), flag(p.is_compressed())),
+        Ok(b) => format!("{};{};{}", hex::encode(b), flag(p.is_compressed()), p.to_hex().unwrap_or_else(|_| "E".into())),
         Err(_) => "E".into(),
     }
 }
@@ -79,7 +82,7 @@ fn show_addr(a: &P2PKHAddress) -> String {
         Ok(s) => s,
         Err(_) => "E".into(),
     };
-    format!("{};{};{}", find_prefix(a), hex::encode(a.to_pubkey_hash()), s)
+    format!("{};{};{};{}", find_prefix(a), hex::encode(a.to_pubkey_hash()), s, a.to_pubkey_hash_hex())
 }
 fn sighash_sig(der: &[u8], fl: u8) -> Option<SighashSignature> {
     let sig = Signature::from_der(der).ok()?;
@@ -144,7 +147,21 @@ pub fn run(op: &str, args: &[String]) -> Option<String> {
             let c = need!(arg_flag(args, 1));
             let k = lib!(PrivateKey::from_bytes(&kb)).compress_public_key(c);
             let p = lib!(k.to_public_key());
-            format!("OK:{}", show_pub(&p))
+            let q = PublicKey::from_private_key(&k);
+            format!("OK:{};{};{}", show_pub(&p), hex::encode(k.get_point()), show_pub(&q))
+        }
+        "key.random" => {
+            // behavioural: two fresh keys differ, are valid 32-byte scalars, default to the compressed form, survive WIF
+            let a = PrivateKey::from_random();
+            let b = PrivateKey::from_random();
+            let distinct = a.to_bytes() != b.to_bytes();
+            let valid = a.to_bytes().len() == 32 && PrivateKey::from_bytes(&a.to_bytes()).is_ok() && PrivateKey::from_hex(&a.to_hex()).is_ok();
+            let compressed = a.to_public_key().map(|p| p.is_compressed() && p.to_bytes().map(|x| x.len() == 33).unwrap_or(false)).unwrap_or(false);
+            let wif = match a.to_wif().and_then(|w| PrivateKey::from_wif(&w)) {
+                Ok(k2) => k2.to_bytes() == a.to_bytes(),
+                Err(_) => false,
+            };
+            format!("OK:{};{};{};{}", flag(distinct), flag(valid), flag(compressed), flag(wif))
         }
         "key.address" => {
             let kb = need!(arg_bytes(args, 0));
@@ -167,6 +184,11 @@ pub fn run(op: &str, args: &[String]) -> Option<String> {
             let p = lib!(PublicKey::from_bytes(&b));
             format!("OK:{}", show_pub(&p))
         }
+        "pub.from_hex" => {
+            let t = need!(arg_str(args, 0));
+            let p = lib!(PublicKey::from_hex(&t));
+            format!("OK:{}", show_pub(&p))
+        }
         "pub.compress" | "pub.decompress" => {
             let b = need!(arg_bytes(args, 0));
             let p = lib!(PublicKey::from_bytes(&b));
@@ -177,7 +199,11 @@ pub fn run(op: &str, args: &[String]) -> Option<String> {
             let b = need!(arg_bytes(args, 0));
             let p = lib!(PublicKey::from_bytes(&b));
             let a = lib!(p.to_p2pkh_address());
-            format!("OK:{}", show_addr(&a))
+            let same = match P2PKHAddress::from_pubkey(&p) {
+                Ok(b) => flag(b == a),
+                Err(_) => "E",
+            };
+            format!("OK:{};{}", show_addr(&a), same)
         }
         "pub.unlock_own" => {
             let b = need!(arg_bytes(args, 0));
@@ -217,6 +243,25 @@ pub fn run(op: &str, args: &[String]) -> Option<String> {
             let pre = need!(arg_byte(args, 1));
             let a = lib!(lib!(P2PKHAddress::from_string(&t)).set_chain_params(&chain(pre)));
             format!("OK:{}", show_addr(&a))
+        }
+        "addr.chain_named" => {
+            let h = need!(arg_bytes(args, 0));
+            let name = need!(args.get(1));
+            let cp = match name.as_str() {
+                "mainnet" => ChainParams::mainnet(),
+                "testnet" => ChainParams::testnet(),
+                "regtest" => ChainParams::regtest(),
+                "stn" => ChainParams::stn(),
+                "default" => ChainParams::default(),
+                _ => return Some("BADARG".into()),
+            };
+            let base = lib!(P2PKHAddress::from_pubkey_hash(&h));
+            let a = lib!(base.set_chain_params(&cp));
+            let same = match base.set_chain_params_impl(&cp) {
+                Ok(b) => flag(b == a),
+                Err(_) => "E",
+            };
+            format!("OK:{};{}", show_addr(&a), same)
         }
         "addr.locking" => {
             let pre = need!(arg_byte(args, 0));
